@@ -24,6 +24,9 @@ def main():
             i += 1
     if tier not in ("quick", "thorough"):
         tier = "quick"
+    if tier == "thorough":
+        # second solver: every 20th obligation is re-decided by cvc5 (read by symx.core at import)
+        os.environ.setdefault("VERIF_CVC5_EVERY", "20")
     if replay:
         from . import replay as rp
         return rp.run(prop, replay)
